@@ -388,7 +388,13 @@ func (fr *Frame) mapUpdate(in *ssa.MapUpdate) {
 func (fr *Frame) mapLen(h *Heap, mt *types.Map, m string) string {
 	vc := fr.vc
 	mf := vc.mapFamilies(mt)
-	return ite(eq(m, "0"), "0", "(select "+vc.lookup(h, mf.card)+" "+m+")")
+	card := "(select " + vc.lookup(h, mf.card) + " " + m + ")"
+	// the number of entries of a map is never negative
+	if key := "cardfact:" + card; !vc.specDone[key] && !strings.Contains(card, "bv.") {
+		vc.specDone[key] = true
+		vc.assert("(>= " + card + " 0)")
+	}
+	return ite(eq(m, "0"), "0", card)
 }
 
 // ---------------------------------------------------------------------------
